@@ -36,7 +36,7 @@ CONFIGS = {
                           "ADD_SERIALIZATION_CONTEXT]"}),
     "nocopy": dict(config={"dialect": "_NoCopyDialect"}),
 }
-CLASSY = {"dc", "nt", "ntf", "td", "dcgen", "dcgeninh", "dcinh", "dcself", "dcselft", "dcfwd", "dcmut"}
+CLASSY = {"dc", "nt", "ntf", "td", "dcgen", "dcgeninh", "dcinh", "dcself", "dcselft", "dcfwd", "dcmut", "dcselfg"}
 
 
 def bounds(tier):
@@ -57,7 +57,7 @@ def units(tier):
                 if c == "default":
                     continue
                 if c.startswith("alias") or c in ("sort_keys", "lazy", "forbid_extra", "flags"):
-                    if not dcish and not space.has_kind(d, {"dcgen", "dcgeninh", "dcinh", "dcself", "dcselft", "dcfwd", "dcmut"}):
+                    if not dcish and not space.has_kind(d, {"dcgen", "dcgeninh", "dcinh", "dcself", "dcselft", "dcfwd", "dcmut", "dcselfg"}):
                         continue
                 if c.startswith("alias") and not dcish:
                     continue
